@@ -303,8 +303,8 @@ Definition process_when_ctx (s : sst) : sst :=
           set_when st h wc (close (ss_closed st) id)
         end) ids st1) (ss_wctx s) s.
 
-(* body of ProcessWhen's inner loop for binding [id] and state [x] *)
-Definition visit_wb (s : sst) (id x : nat) (act : bool) : sst :=
+(* ProcessWhen, pass 1, for binding [id] and state [x]: flag and counter *)
+Definition touch_wb (s : sst) (id x : nat) (act : bool) : sst :=
   match find_wb (ss_wb s) id with
   | None => s
   | Some b =>
@@ -313,21 +313,37 @@ Definition visit_wb (s : sst) (id x : nat) (act : bool) : sst :=
     let m' :=
       if act then (if fl then m else if wb_neg b then (m - 1)%Z else (m + 1)%Z)
       else (if fl then (if wb_neg b then (m + 1)%Z else (m - 1)%Z) else m) in
-    let b' := wb_set_match b (aset (wb_flags b) x act) m' in
-    let h := put_wb (ss_wb s) b' in
-    let expired := ctx_done s (wb_ctx b) in
-    if (m' <? Z.of_nat (wb_total b))%Z && negb expired then set_when s h (ss_wctx s) (ss_closed s)
+    set_when s (put_wb (ss_wb s) (wb_set_match b (aset (wb_flags b) x act) m'))
+             (ss_wctx s) (ss_closed s)
+  end.
+
+(* ProcessWhen, pass 2, for a touched binding: completion on the final flags *)
+Definition complete_wb (s : sst) (id : nat) : sst :=
+  match find_wb (ss_wb s) id with
+  | None => s
+  | Some b =>
+    if (wb_matched b <? Z.of_nat (wb_total b))%Z && negb (ctx_done s (wb_ctx b)) then s
     else
-      let '(h2, wc) := gc_when h (ss_wctx s) b' true in
+      let '(h2, wc) := gc_when (ss_wb s) (ss_wctx s) b true in
       set_when s h2 wc (close (ss_closed s) id)
   end.
 
-(* ProcessWhen(activated, deactivated) *)
+(* sm.when[x] as binding ids *)
+Definition when_ids (h : list wbind) (x : nat) : list nat :=
+  flat_map (fun b => repeat (wb_id b) (count_in x (wb_idx b))) h.
+
+Definition touch_state (act : list nat) (st : sst) (x : nat) : sst :=
+  fold_left (fun st id => touch_wb st id x (mem x act)) (when_ids (ss_wb st) x) st.
+
+(* ProcessWhen(activated, deactivated), two passes (before the fix the
+   completion test followed every single flag update). Pass 1 does not move
+   the index, so the touched bindings - in first-touch order - can be read
+   off the heap it starts from. *)
 Definition process_when (s : sst) (act deact : list nat) : sst :=
-  fold_left (fun st x =>
-    let ids := flat_map (fun b => repeat (wb_id b) (count_in x (wb_idx b))) (ss_wb st) in
-    fold_left (fun st id => visit_wb st id x (mem x act)) ids st)
-    (act ++ deact) (process_when_ctx s).
+  let s0 := process_when_ctx s in
+  let all := act ++ deact in
+  let touched := uniq (flat_map (when_ids (ss_wb s0)) all) in
+  fold_left complete_wb touched (fold_left (touch_state act) all s0).
 
 (* Subscriptions.When / WhenNot (states already parsed: known, duplicate-free) *)
 Definition reuse_when (s : sst) (neg : bool) (sts : list nat) (ctx : option nat) : option nat :=
